@@ -177,6 +177,8 @@ PROPS['C02'] = {
     'modules': ['OtterVerif.Props.C02', 'OtterVerif.Props.C15'],
     'engines': [conc('conclin', 'conc-lin', 240, 12000, 20, ['-target', 'cache']), conc('conclin', 'conc-lin', 120, 6000, 20, ['-target', 'table']),
                 conc('concresize', 'conc-resize', 120, 6000, 10),
+                # each operation behaves as on a sequential map keyed by == (floats, strings, interfaces ...); callbacks run once also when the insert grows the table
+                {'kind': 'unit', 'name': 'keys', 'hcmd': 'unit-keys', 'dcmd': 'keys', 'quick': 40, 'thorough': 2000, 'chunk': 10, 'args': []},
                 # a value returned by Get (also to a caller that only joined the load) is readable by the same goroutine afterwards
                 {'kind': 'unit', 'name': 'concflight', 'hcmd': 'conc-flight', 'dcmd': 'concflight', 'quick': 64, 'thorough': 3000, 'chunk': 8, 'args': [],
                  'accept': lambda f: 'C02' in f['msg']}],
